@@ -245,7 +245,7 @@ func genC28(seed uint64) *Plan {
 			}
 			if pl.BMPPeers[pi].AddPath && !p.V6 {
 				for range st.Pfx {
-					st.PathIDs = append(st.PathIDs, uint32(1+r.Intn(2)))
+					st.PathIDs = append(st.PathIDs, uint32(r.Intn(3)))
 				}
 			}
 			if st.Label == "announce" && r.Chance(0.25) {
@@ -262,7 +262,7 @@ func genC28(seed uint64) *Plan {
 						if st.Wd[k] == p {
 							st.WdIDs = append(st.WdIDs, st.PathIDs[0])
 						} else {
-							st.WdIDs = append(st.WdIDs, uint32(1+r.Intn(2)))
+							st.WdIDs = append(st.WdIDs, uint32(r.Intn(3)))
 						}
 					}
 				}
